@@ -97,6 +97,45 @@ Theorem sorted_permutation_is_np_sort :
 Proof. exact is_sort_of_unique. Qed.
 Print Assumptions sorted_permutation_is_np_sort.
 
+(* ------------------------------------------------------------------ sparse.sort through its plumbing
+   (normalize_axis, x[None,:] / squeeze(0) for 1-d input, moveaxis = transposition with re-sorting
+   of the entries, the two reshapes): 1-d and 2-d inputs, every valid axis.  For more than two
+   dimensions the plumbing is covered by correspondence only. *)
+
+(* 1-d input, axis 0 or -1: canonical 1-d result whose dense data is np.sort (reversed when
+   descending) of the dense input; any extent, 0 and 1 included *)
+Theorem sort_1d :
+  forall (n axis : Z) (cs : list idx) (data : list Z) (fill : Z) (desc : bool),
+    (axis = 0 \/ axis = -1) -> 0 <= n ->
+    canonical Z (mkCOO [n] cs data fill) ->
+    exists y, ss_sort (mkCOO [n] cs data fill) axis desc = Ok y
+      /\ c_shape y = [n] /\ c_fill y = fill /\ canonical Z y
+      /\ flat1 y n = np_sort_dir desc (flat1 (mkCOO [n] cs data fill) n).
+Proof. exact sort_1d_proof. Qed.
+Print Assumptions sort_1d.
+
+(* 2-d input, last axis (1 or -1), any extents (a length-0 axis included) *)
+Theorem sort_2d_last_axis :
+  forall (R L axis : Z) (cs : list idx) (data : list Z) (fill : Z) (desc : bool),
+    last_axis_2d axis -> 0 <= L ->
+    canonical Z (mkCOO [R; L] cs data fill) ->
+    exists y, ss_sort (mkCOO [R; L] cs data fill) axis desc = Ok y
+      /\ c_shape y = [R; L] /\ c_fill y = fill /\ canonical Z y
+      /\ forall r, 0 <= r < R -> row2 y L r = np_sort_dir desc (row2 (mkCOO [R; L] cs data fill) L r).
+Proof. exact sort_2d_last_axis_proof. Qed.
+Print Assumptions sort_2d_last_axis.
+
+(* 2-d input, first axis (0 or -2): every dense column of the result is the sorted dense column *)
+Theorem sort_2d_first_axis :
+  forall (R L axis : Z) (cs : list idx) (data : list Z) (fill : Z) (desc : bool),
+    (axis = 0 \/ axis = -2) -> 0 <= R ->
+    canonical Z (mkCOO [R; L] cs data fill) ->
+    exists y, ss_sort (mkCOO [R; L] cs data fill) axis desc = Ok y
+      /\ c_shape y = [R; L] /\ c_fill y = fill /\ canonical Z y
+      /\ forall k, 0 <= k < L -> col2 y R k = np_sort_dir desc (col2 (mkCOO [R; L] cs data fill) R k).
+Proof. exact sort_2d_first_axis_proof. Qed.
+Print Assumptions sort_2d_first_axis.
+
 (* ------------------------------------------------------------------ _compute_minmax_args *)
 
 (* For every canonical PRUNED 2-d input (reduce coordinate, index coordinate) with a non-empty
@@ -130,57 +169,18 @@ Theorem argminmax_first_unpruned_refuted :
 Proof. exact argminmax_first_unpruned_refuted_proof. Qed.
 Print Assumptions argminmax_first_unpruned_refuted.
 
-(* ------------------------------------------------------------------ the public wrappers
-   Full statements (FALSE of the code as it stands, findings D17 and D18):
-     forall x axis desc, canonical x -> res_dense (ss_sort x axis desc) = np_sort_axis (todense x) axis desc
-     forall x axis kd m, canonical x -> pruned x ->
-        res_dense (ss_argminmax m x axis kd) = np_argbest_axis m (todense x) axis kd
-   One concrete counter-example per domain clause of Corr/C10Judge.v; inside the domain the
-   equality of the wrappers with the Spec is checked by correspondence on every generated case. *)
-Theorem sort_api_len1_1d_refuted :           (* clause D18_sort_len1_1d *)
-  exists x axis desc, canonicalb x = true /\ prunedb Z.eqb x = true /\
-    res_dense (ss_sort x axis desc) <> np_sort_axis (todense x) axis desc.
-Proof. exact sort_api_len1_1d_refuted_proof. Qed.
-Print Assumptions sort_api_len1_1d_refuted.
-
-Theorem sort_api_len0_axis_refuted :         (* clause D18_sort_len0_axis *)
-  exists x axis desc, canonicalb x = true /\ prunedb Z.eqb x = true /\
-    res_dense (ss_sort x axis desc) <> np_sort_axis (todense x) axis desc.
-Proof. exact sort_api_len0_axis_refuted_proof. Qed.
-Print Assumptions sort_api_len0_axis_refuted.
-
-Theorem sort_api_1d_axis_unchecked_refuted : (* clause sort_1d_axis_unchecked *)
-  exists x axis desc, canonicalb x = true /\ prunedb Z.eqb x = true /\
-    res_dense (ss_sort x axis desc) <> np_sort_axis (todense x) axis desc.
-Proof. exact sort_api_1d_axis_unchecked_refuted_proof. Qed.
-Print Assumptions sort_api_1d_axis_unchecked_refuted.
-
-Theorem arg_api_1d_negative_axis_refuted :   (* clause D17_arg_1d_negative_axis *)
-  exists x axis kd, canonicalb x = true /\ prunedb Z.eqb x = true /\
-    res_dense (ss_argminmax true x axis kd) <> np_argbest_axis true (todense x) axis kd.
-Proof. exact arg_api_1d_negative_axis_refuted_proof. Qed.
-Print Assumptions arg_api_1d_negative_axis_refuted.
-
-Theorem arg_api_zero_size_refuted :          (* clause D17_arg_zero_size *)
-  exists x axis kd, canonicalb x = true /\ prunedb Z.eqb x = true /\
-    res_dense (ss_argminmax true x axis kd) <> np_argbest_axis true (todense x) axis kd.
-Proof. exact arg_api_zero_size_refuted_proof. Qed.
-Print Assumptions arg_api_zero_size_refuted.
-
-Theorem arg_api_squeeze_other_singleton_refuted :   (* clause D17_arg_squeeze_other_singleton *)
-  exists x axis kd, canonicalb x = true /\ prunedb Z.eqb x = true /\
-    res_dense (ss_argminmax true x axis kd) <> np_argbest_axis true (todense x) axis kd.
-Proof. exact arg_api_squeeze_other_singleton_refuted_proof. Qed.
-Print Assumptions arg_api_squeeze_other_singleton_refuted.
-
-Theorem arg_api_keepdims_negative_axis_refuted :    (* clause D17_arg_keepdims_negative_axis *)
-  exists x axis kd, canonicalb x = true /\ prunedb Z.eqb x = true /\
-    res_dense (ss_argminmax true x axis kd) <> np_argbest_axis true (todense x) axis kd.
-Proof. exact arg_api_keepdims_negative_axis_refuted_proof. Qed.
-Print Assumptions arg_api_keepdims_negative_axis_refuted.
-
-Theorem arg_api_1d_keepdims_refuted :        (* clause D17_arg_1d_keepdims *)
-  exists x axis kd, canonicalb x = true /\ prunedb Z.eqb x = true /\
-    res_dense (ss_argminmax true x axis kd) <> np_argbest_axis true (todense x) axis kd.
-Proof. exact arg_api_1d_keepdims_refuted_proof. Qed.
-Print Assumptions arg_api_1d_keepdims_refuted.
+(* ------------------------------------------------------------------ argmax / argmin through the plumbing
+   2-d input, first axis (0 or -2), keepdims or not: the result has NumPy's shape and holds, for
+   every index k of the other axis, np.argmax / np.argmin of the dense column k (arg_emb kd k is
+   [0; k] with keepdims, [k] without).  The other paths of _arg_minmax_common (axis=None, the
+   last axis of a 2-d array, 1-d input, more than two dimensions) are covered by correspondence
+   only. *)
+Theorem argminmax_2d_first_axis :
+  forall (maxm kd : bool) (N M axis : Z) (cs : list idx) (data : list Z) (fill : Z),
+    (axis = 0 \/ axis = -2) -> 0 < N -> 0 <= M ->
+    canonical Z (mkCOO [N; M] cs data fill) -> prunedb Z.eqb (mkCOO [N; M] cs data fill) = true ->
+    exists z, ss_argminmax maxm (mkCOO [N; M] cs data fill) (Some axis) kd = Ok z
+      /\ c_shape z = (if kd then [1; M] else [M])
+      /\ forall k, den z (arg_emb kd k) = np_argbest maxm (col2 (mkCOO [N; M] cs data fill) N k).
+Proof. exact argminmax_2d_first_axis_proof. Qed.
+Print Assumptions argminmax_2d_first_axis.
